@@ -129,11 +129,17 @@ class Run:
         open(os.path.join(self.work, "coq_build.log"), "w").write(out)
         self.proof["closed"] = out.count("Closed under the global context")
         axioms = []
-        for m in re.finditer(r"Axioms:\n((?:.+\n)+?)(?=\n|COQC|Closed|Axioms:|$)", out):
-            for line in m.group(1).splitlines():
-                mm = re.match(r"^(\S+)\s*:", line)
-                if mm:
-                    axioms.append(mm.group(1))
+        in_block = False
+        for line in out.splitlines():
+            if line.startswith("Axioms:"):
+                in_block = True
+                continue
+            if in_block:
+                if not line.strip() or line.startswith(("COQC", "COQDEP", "Closed under", "make", "File ")):
+                    in_block = False
+                    continue
+                if not line[0].isspace():  # a new entry starts at column 0 (its type may wrap onto indented lines)
+                    axioms.append(line.split()[0].rstrip(":"))
         self.proof["axioms"] = sorted(set(axioms))
         if p.returncode != 0:
             self.proof["ok"] = False
